@@ -291,8 +291,15 @@ pub fn walk_cmd(args: &[&str]) -> String {
     let base = unhex(args[1]);
     let expr = unhex(args[2]).replace("@ROOT", &root_str);
     let link = if args[3] == "t" { LinkBehavior::ReadTarget } else { LinkBehavior::ReadFile };
-    let min = args[4].parse::<usize>().ok();
+    // the minimum field names the constructor: none `bounded`, x `from_depths_or_max`, m `from_min_or_unbounded`,
+    // v `bounded_at_depth_variance` (with the depth of the glob)
+    let (route, min_text) = match args[4].chars().next() {
+        Some(c @ ('x' | 'm' | 'v')) => (c, &args[4][1..]),
+        _ => ('b', args[4]),
+    };
+    let min = min_text.parse::<usize>().ok();
     let max = args[5].parse::<usize>().ok();
+    let mut lower: Option<usize> = None;
     let layers = parse_stack(args[6]);
     let mut unreadable = vec![];
     for item in args[7].split(',') {
@@ -342,11 +349,31 @@ pub fn walk_cmd(args: &[&str]) -> String {
     else {
         PathBuf::from(format!("{}/{}", root_str, base))
     };
-    let depth = if min.is_none() && max.is_none() {
-        Some(DepthBehavior::Unbounded)
-    }
-    else {
-        DepthBehavior::bounded(min, max)
+    let depth = match route {
+        'x' => match (min, max) {
+            (Some(p), Some(q)) => Some(wax::walk::DepthMinMax::from_depths_or_max(p, q)),
+            _ => None,
+        },
+        'm' => min.map(wax::walk::DepthMin::from_min_or_unbounded),
+        'v' => match Glob::new(&expr).ok().and_then(|g| std::panic::catch_unwind(std::panic::AssertUnwindSafe(|| wax::Program::depth(&g))).ok()) {
+            Some(variance) => {
+                lower = Some(match variance {
+                    wax::query::Variance::Invariant(n) => n,
+                    wax::query::Variance::Variant(bounds) => match bounds {
+                        wax::query::Boundedness::Bounded(r) => match r.lower() {
+                            wax::query::Boundedness::Bounded(n) => n.get(),
+                            _ => 0,
+                        },
+                        _ => 0,
+                    },
+                });
+                if min.is_none() && max.is_none() { None } else { DepthBehavior::bounded_at_depth_variance(min, max, variance) }
+            },
+            // the glob does not build (reported as such below) or its depth query panics
+            None => if Glob::new(&expr).is_err() { Some(DepthBehavior::Unbounded) } else { None },
+        },
+        _ if min.is_none() && max.is_none() => Some(DepthBehavior::Unbounded),
+        _ => DepthBehavior::bounded(min, max),
     };
     let result = (|| -> Result<(Vec<String>, Vec<Vec<String>>), String> {
         let depth = depth.ok_or_else(|| "depthnone".to_string())?;
@@ -371,15 +398,17 @@ pub fn walk_cmd(args: &[&str]) -> String {
     restore_permissions(&root);
     let _ = fs::remove_dir_all(&tmp);
     let join = |v: &Vec<String>| if v.is_empty() { "-".to_string() } else { v.join(";") };
+    let lower = lower.map(|n| format!(" lower={}", n)).unwrap_or_default();
     match result {
-        Err(e) => format!("{} root={} rec={}", e, hex(&root_str), join(&rec)),
+        Err(e) => format!("{} root={} rec={}{}", e, hex(&root_str), join(&rec), lower),
         Ok((items, logs)) => format!(
-            "root={} base={} rec={} items={} logs={}",
+            "root={} base={} rec={} items={} logs={}{}",
             hex(&root_str),
             hexp(&basep),
             join(&rec),
             join(&items),
             if logs.is_empty() { "-".to_string() } else { logs.iter().map(join).collect::<Vec<_>>().join("|") },
+            lower,
         ),
     }
 }
